@@ -353,7 +353,11 @@ func globalsOf(o CaseOpts) map[string]any {
 
 // refOpts builds the reference options of a case.
 func refOpts(c *Case) refpeg.Options {
-	return refpeg.Options{Entry: c.Entry, Filename: c.Opts.Filename, AllowInvalid: c.Opts.AllowInvalid,
+	entry := c.Entry
+	if entry == EntryEmptyOption {
+		entry = ""
+	}
+	return refpeg.Options{Entry: entry, Filename: c.Opts.Filename, AllowInvalid: c.Opts.AllowInvalid,
 		NoRecover: c.Opts.NoRecover, MaxExpr: c.Opts.MaxExpr, InitState: initStateOf(c.Opts), Globals: globalsOf(c.Opts), Plan: c.Plan}
 }
 
